@@ -6,6 +6,7 @@ use crate::checker::{CheckResult, ViolationCategory, ViolationType};
 use crate::cli::{BaselineUpdateMode, CheckArgs};
 use crate::config::{Config, RatchetMode};
 use crate::counter::LineStats;
+use crate::output::path::path_key;
 use crate::state::{self, SaveOutcome};
 
 /// Result of baseline ratchet check.
@@ -80,7 +81,7 @@ pub fn apply_baseline_comparison(results: &mut [CheckResult], baseline: &Baselin
             continue;
         }
 
-        let path_str = result.path().to_string_lossy().replace('\\', "/");
+        let path_str = path_key(&result.path().to_string_lossy());
         if baseline.contains(&path_str) {
             // Replace the result with its grandfathered version
             let owned = std::mem::replace(
@@ -134,7 +135,7 @@ pub fn update_baseline_from_results(
             continue;
         }
 
-        let path_str = result.path().to_string_lossy().replace('\\', "/");
+        let path_str = path_key(&result.path().to_string_lossy());
         let is_structure = is_structure_violation_result(result);
 
         // Apply mode filtering
@@ -236,7 +237,7 @@ pub fn check_baseline_ratchet(results: &[CheckResult], baseline: &Baseline) -> R
     let current_failures: HashSet<String> = results
         .iter()
         .filter(|r| r.is_failed() || r.is_grandfathered())
-        .map(|r| r.path().to_string_lossy().replace('\\', "/"))
+        .map(|r| path_key(&r.path().to_string_lossy()))
         .collect();
 
     // Find baseline entries that are no longer violations
